@@ -326,6 +326,84 @@ func unitLike(g *Grammar, rule string) bool {
 func checkConversions(r *Run, vm *VisitorModel) {
 	info := vm.pkg.TypesInfo
 	tbl := r.LoadTable("c08_sites")
+	isConvFunc := func(fn *types.Func) bool {
+		if fn == nil {
+			return false
+		}
+		full := funcFullName(fn)
+		return strings.HasPrefix(full, "strconv.Parse") || strings.HasPrefix(full, "strconv.Atoi") || strings.HasPrefix(full, "strconv.Unquote") ||
+			full == modPath+"/cypher/models/cypher.ParseOperator"
+	}
+	// A conversion whose two results are returned as they are (`return strconv.ParseInt(…)` in a function literal or a
+	// small function) hands the obligation to whoever calls that function; a conversion function or such a literal passed
+	// as an argument makes the receiving parameter a conversion in the callee.
+	byObj := map[types.Object]*ast.FuncDecl{}
+	for _, f := range vm.pkg.Syntax {
+		for _, d := range f.Decls {
+			if fd, ok := d.(*ast.FuncDecl); ok && fd.Body != nil {
+				byObj[info.Defs[fd.Name]] = fd
+			}
+		}
+	}
+	forwardsConv := func(body *ast.BlockStmt) bool {
+		if body == nil || len(body.List) != 1 {
+			return false
+		}
+		rs, ok := body.List[0].(*ast.ReturnStmt)
+		if !ok || len(rs.Results) != 1 {
+			return false
+		}
+		call, ok := ast.Unparen(rs.Results[0]).(*ast.CallExpr)
+		return ok && isConvFunc(calleeOf(info, call))
+	}
+	wrapperDecls := map[types.Object]bool{}
+	for obj, fd := range byObj {
+		if forwardsConv(fd.Body) {
+			wrapperDecls[obj] = true
+		}
+	}
+	isConvValue := func(e ast.Expr) bool {
+		switch x := ast.Unparen(e).(type) {
+		case *ast.FuncLit:
+			return forwardsConv(x.Body)
+		case *ast.Ident:
+			fn, _ := info.Uses[x].(*types.Func)
+			return isConvFunc(fn) || (fn != nil && wrapperDecls[fn.Origin()])
+		case *ast.SelectorExpr:
+			fn, _ := info.Uses[x.Sel].(*types.Func)
+			return isConvFunc(fn)
+		}
+		return false
+	}
+	convParams := map[types.Object]bool{}
+	for _, f := range vm.pkg.Syntax {
+		ast.Inspect(f, func(n ast.Node) bool {
+			call, ok := n.(*ast.CallExpr)
+			if !ok {
+				return true
+			}
+			callee := calleeOf(info, call)
+			if callee == nil {
+				return true
+			}
+			hd := byObj[callee.Origin()]
+			if hd == nil || hd.Type.Params == nil {
+				return true
+			}
+			var params []types.Object
+			for _, pl := range hd.Type.Params.List {
+				for _, nm := range pl.Names {
+					params = append(params, info.Defs[nm])
+				}
+			}
+			for i, a := range call.Args {
+				if i < len(params) && isConvValue(a) {
+					convParams[params[i]] = true
+				}
+			}
+			return true
+		})
+	}
 	for _, f := range vm.pkg.Syntax {
 		for _, d := range f.Decls {
 			fd, ok := d.(*ast.FuncDecl)
@@ -344,16 +422,44 @@ func checkConversions(r *Run, vm *VisitorModel) {
 					return true
 				}
 				fn := calleeOf(info, call)
+				convName := ""
+				switch {
+				case isConvFunc(fn):
+					convName = fn.Name()
+				case fn != nil && wrapperDecls[fn.Origin()]:
+					convName = fn.Name()
+				default:
+					if id, ok := ast.Unparen(call.Fun).(*ast.Ident); ok && convParams[info.Uses[id]] {
+						convName = id.Name
+					}
+				}
+				if convName == "" {
+					return true
+				}
 				if fn == nil {
-					return true
+					fn = types.NewFunc(token.NoPos, vm.pkg.Types, convName, types.NewSignatureType(nil, nil, nil, nil, nil, false))
 				}
-				full := funcFullName(fn)
-				isConv := strings.HasPrefix(full, "strconv.Parse") || strings.HasPrefix(full, "strconv.Atoi") || strings.HasPrefix(full, "strconv.Unquote") ||
-					full == modPath+"/cypher/models/cypher.ParseOperator"
-				if !isConv {
-					return true
+				construct := funcDeclName(fd) + ":" + convName
+				// the two results handed on unchanged: the caller of this function (literal) is judged instead
+				if len(stack) >= 2 {
+					if rs, isRet := stack[len(stack)-2].(*ast.ReturnStmt); isRet && len(rs.Results) == 1 {
+						forwarded := false
+						for i := len(stack) - 3; i >= 0 && !forwarded; i-- {
+							switch enc := stack[i].(type) {
+							case *ast.FuncLit:
+								forwarded = forwardsConv(enc.Body)
+								i = -1
+							}
+						}
+						if !forwarded && forwardsConv(fd.Body) {
+							forwarded = true
+						}
+						if forwarded {
+							r.Pass("C08-R4-conversion-error", construct+":forwarded", call.Pos(), "value and error are returned as they are; the function's callers are judged")
+							return true
+						}
+					}
 				}
-				construct := funcDeclName(fd) + ":" + fn.Name()
 				// parent must be an assignment v, err := call
 				var as *ast.AssignStmt
 				if len(stack) >= 2 {
@@ -658,36 +764,60 @@ func checkErrorListeners(r *Run, vm *VisitorModel) {
 			}
 		}
 	}
-	ast.Inspect(pc.Body, func(n ast.Node) bool {
-		spec, ok := n.(*ast.ValueSpec)
-		if !ok {
-			return true
+	inl := inlineFunc(vm.pkg, pc, 2)
+	// the recognisers are locals (of parseCypher or of a helper it is split into) defined by the generated constructors
+	define := func(name *ast.Ident, value ast.Expr) {
+		nameObj := info.Defs[name]
+		if nameObj == nil {
+			return
 		}
-		for i, name := range spec.Names {
-			if i >= len(spec.Values) {
-				continue
-			}
-			call, ok := ast.Unparen(spec.Values[i]).(*ast.CallExpr)
-			if !ok {
-				continue
-			}
-			fn := calleeOf(info, call)
+		switch v := ast.Unparen(value).(type) {
+		case *ast.CallExpr:
+			fn := calleeOf(info, v)
 			if fn == nil {
-				continue
+				return
 			}
 			switch fn.Name() {
 			case "NewCypherLexer":
-				recs = append(recs, &recog{obj: info.Defs[name], kind: "lexer"})
+				recs = append(recs, &recog{obj: nameObj, kind: "lexer"})
 			case "NewCypherParser":
-				recs = append(recs, &recog{obj: info.Defs[name], kind: "parser"})
+				recs = append(recs, &recog{obj: nameObj, kind: "parser"})
 			default:
-				for _, a := range call.Args {
+				for _, a := range v.Args {
 					if id, ok := ast.Unparen(a).(*ast.Ident); ok {
 						for _, rc := range recs {
-							if info.Uses[id] == rc.obj {
-								derived[info.Defs[name]] = rc.kind
+							if inl.Obj(id) == rc.obj {
+								derived[nameObj] = rc.kind
 							}
 						}
+					}
+				}
+			}
+		case *ast.Ident:
+			// a helper's result handed to a local of the caller: the same recogniser under another name
+			for _, rc := range recs {
+				if inl.Obj(v) == rc.obj {
+					derived[nameObj] = rc.kind
+				}
+			}
+			if k, ok := derived[inl.Obj(v)]; ok {
+				derived[nameObj] = k
+			}
+		}
+	}
+	ast.Inspect(inl.Body, func(n ast.Node) bool {
+		switch x := n.(type) {
+		case *ast.ValueSpec:
+			for i, name := range x.Names {
+				if i < len(x.Values) {
+					define(name, x.Values[i])
+				}
+			}
+		case *ast.AssignStmt:
+			if x.Tok == token.DEFINE && len(x.Lhs) == len(x.Rhs) {
+				for i, l := range x.Lhs {
+					if id, ok := l.(*ast.Ident); ok {
+						define(id, x.Rhs[i])
 					}
 				}
 			}
@@ -700,7 +830,6 @@ func checkErrorListeners(r *Run, vm *VisitorModel) {
 	}
 	// unconditional top-level statements X.RemoveErrorListeners(); X.AddErrorListener(ctx) — of parseCypher or of a helper
 	// it calls unconditionally (the order is the order in which the statements run, not the source position)
-	inl := inlineFunc(vm.pkg, pc, 2)
 	addedSeq := map[*recog]int{}
 	for _, st := range inl.Top {
 		es, ok := st.(*ast.ExprStmt)
